@@ -186,6 +186,7 @@ func main() {
 			r.Arch = append(r.Arch, label)
 			if arch == "" {
 				pc.Run(p, r)
+				reportInitOnly(p, r, pc.ID)
 			} else {
 				// repeat under the other word size; keys get a suffix so that
 				// instances are counted separately
